@@ -44,7 +44,7 @@ bytes and a fixed list of lengths for one canonical PDU of each kind. client: rt
 [version-error PDU] [cache reset] cache response, payload PDUs, end of data: intact => exactly the (action, payload) list \
 and state; every proper prefix => Err; one corrupted header => Err where the reference rules say so, otherwise only \
 termination. non-trivial = sequence with a variable-length PDU (roundtrip/payload), a truncation point strictly inside a \
-PDU body (truncate/client), or a header field actually changed (corrupt/header-enum/client).";
+PDU body (truncate/client), or a header field actually changed (corrupt/header-enum/client). Items after the wire must be interchangeable with the expected item: ==, same hash, cmp Equal (origins written with an implicit max length included).";
 
 //------------ plain-data specs ------------------------------------------------
 
